@@ -226,6 +226,11 @@ def t_space(acc, space, L, shard, nshard, stride=1, offset=0, mode='plain', dept
                     check(acc, cfg.rename(spec, None, cfg.EPS_TERMINAL), L, mode, depth, epsilon='e')     # the character ε as a terminal
                 if (idx // stride) % 8 == 2:
                     check(acc, cfg.rename(spec, {'A': 'X', 'S': 'XX'}), L, mode, depth)                   # multi-character variable names
+                if (idx // stride) % 4 == 3:
+                    # wave 6: the rule LIST holds one rule twice (S -> Ab | Ab is legal text); the longest rule is the one repeated
+                    rules = list(spec[3])
+                    j = max(range(len(rules)), key=lambda i: (len(rules[i][1]), -i))
+                    check(acc, spec[:3] + (tuple(rules[:j + 1] + [rules[j]] + rules[j + 1:]),) + spec[4:], L, mode, depth)
 
 
 def plan(tier, seed):
@@ -256,4 +261,4 @@ def plan(tier, seed):
         bounds = 'CFG2 (53 592) and CFG2+ (53 240) all, languages on words <= 5; stride 1/4 under the scheduler d<=1; CFGbig(24..28); CFG3u (6 912 three-variable unit-rule grammars) plain and under the scheduler d<=2'
     return {'tasks': tasks, 'bounds': {'spaces': bounds}, 'exhaustive': True,
             'rule': 'every grammar of the space: cfg_to_chomsky, the five public phase functions chained, cfg_apply_chomsky(G,p,start) for p=1..5; language by least fixpoint on both sides; scheduled layer: cfg_to_chomsky under every <= d set-order deviation; non-trivial = grammar with an epsilon rule and a unit rule',
-            'assumptions': ['CFG equivalence is undecidable: languages are compared on all words up to the stated length', 'wave 5: CFGbig(25..28) with one rule of 12-16 symbols (10-14 fresh variables with one hint)']}
+            'assumptions': ['CFG equivalence is undecidable: languages are compared on all words up to the stated length', 'wave 5: CFGbig(25..28) with one rule of 12-16 symbols (10-14 fresh variables with one hint)', 'wave 6: one grammar in four also with its longest rule listed twice']}
